@@ -157,6 +157,24 @@ func checkSound(c *facet.Ctx, in In) error {
 			return facet.Failf("harness-weaken", "generator bug: abstract operand %d does not admit the concrete one: %v", i, f)
 		}
 	}
+	// Half of the cases first derive tighter values from the (nested) unknown
+	// operands and throw them away - what a caller does that narrows a value
+	// further on one code path. The operands themselves must be unaffected, so
+	// the operation below must still be a sound approximation.
+	if len(fmt.Sprint(in.Kinds, len(in.Abs)))%2 == 0 {
+		derived := 0
+		for _, a := range absArgs {
+			derived += deriveAndDiscard(a)
+		}
+		if derived > 0 {
+			c.Label("derived-refinements-discarded")
+			for i := range absArgs {
+				if f := model.Admits(absArgs[i], concArgs[i]); f != nil {
+					return facet.Failf("operand-changed", "refining a value derived from operand %d (and discarding the result) changed the operand itself: it is now %#v and no longer admits %#v: %v", i, absArgs[i], concArgs[i], f).With("op", in.C.Op)
+				}
+			}
+		}
+	}
 	abs := ops.Apply(in.C.Op, absArgs, in.C.Attr)
 	for _, k := range in.Kinds {
 		if i := strings.IndexByte(k, ':'); i >= 0 {
@@ -183,6 +201,45 @@ func checkSound(c *facet.Ctx, in In) error {
 		return f.With("op", in.C.Op)
 	}
 	return nil
+}
+
+// deriveAndDiscard walks v and, for every unknown value in it that carries a
+// refinement, builds tighter refinements of it (not null; the numeric range
+// collapsed onto its lower bound; a longer prefix; the length range collapsed)
+// and discards them. Refusals (panics) are ignored. It returns the number of
+// unknown values it worked on.
+func deriveAndDiscard(v cty.Value) (n int) {
+	_ = cty.Walk(v, func(_ cty.Path, x cty.Value) (bool, error) {
+		x, _ = x.Unmark()
+		if x.IsKnown() || x.Type() == cty.DynamicPseudoType {
+			return true, nil
+		}
+		n++
+		try := func(f func()) {
+			defer func() { _ = recover() }()
+			f()
+		}
+		rng := x.Range()
+		try(func() { _ = x.RefineNotNull() })
+		try(func() { _ = x.Refine().NotNull().NewValue() })
+		switch ty := x.Type(); {
+		case ty == cty.Number:
+			if lo, _ := rng.NumberLowerBound(); lo.IsKnown() {
+				try(func() { _ = x.Refine().NumberRangeUpperBound(lo, true).NewValue() })
+			}
+			if hi, _ := rng.NumberUpperBound(); hi.IsKnown() {
+				try(func() { _ = x.Refine().NumberRangeLowerBound(hi, true).NewValue() })
+			}
+			try(func() { _ = x.Refine().NumberRangeInclusive(cty.NumberIntVal(-1000003), cty.NumberIntVal(-1000003)).NewValue() })
+		case ty == cty.String:
+			try(func() { _ = x.Refine().StringPrefixFull(rng.StringPrefix() + "\x00derived").NewValue() })
+		case ty.IsCollectionType():
+			try(func() { _ = x.Refine().CollectionLengthUpperBound(rng.LengthLowerBound()).NewValue() })
+			try(func() { _ = x.Refine().CollectionLengthLowerBound(rng.LengthLowerBound() + 7).NewValue() })
+		}
+		return true, nil
+	})
+	return n
 }
 
 func fmtArgs(vs []cty.Value) string {
